@@ -70,7 +70,7 @@ class Layout:
             o = opts()
             pp = models.printer(I, **o)
             lv = level() if callable(level) else (level if level is not None else SNum.sym("level", 0, None))
-            return pp, [make_composite(), lv], {}
+            return pp, [make_composite()], {"level": lv}  # level by name: it may be keyword-only
 
         outs = I.explore("pprint.PrettyPrinter._format", make)
         return [(o.assumptions, o.kind, o.value if o.kind == "return" else o.exc) for o in outs]
